@@ -692,6 +692,57 @@ def _(c):
     c.ensures("C14.single-action-effect", last_action_wins, props=("C14",))
 
 
+@contract("AtCommandAction.AtCommandAction.matches")
+def _(c):
+    """C14 'matching no configured action': an entry matches iff the command names are equal and the parameter pattern --
+    if there is one -- matches the parameter text AT ITS START (re.match; None parameters read as '').  Any other
+    predicate of the text (search, fullmatch) is a different opaque predicate and fails the clause."""
+    def pre(b):
+        pat = None if b.choose(2, "pattern None?") == 0 else b.opaque_regex("p")
+        ent = b.new("AtCommandAction", command=b.string("entry.command"), parameterPattern=pat, action="enable_exclusion",
+                    description="entry")
+        return {"self": ent, "args": {"command": b.string("command"), "parameters": b.optstr("parameters")}}
+    c.pre(pre)
+    c.modifies()
+
+    def spec(f):
+        pat = f.self.parameterPattern
+        same = str_eq(f.self.command, f.a.command)
+        if getattr(f, "native", False):
+            want_text = "" if f.a.parameters is None else f.a.parameters
+            if not same:
+                return (not f.result) and (pat is None or pat.log == [])
+            if pat is None:
+                return bool(f.result)
+            return len(pat.log) == 1 and pat.log[0][0] == "match" and pat.log[0][1] == want_text and bool(f.result) == pat.log[0][2]
+        from pyvc.stubs import sstr_to_z3
+        import z3
+        calls = f.g.get("rx.opaque", [])
+        truth = f.interp.truth_expr(f.result, None)
+        if pat is None:
+            return _iff(truth, same)
+        ms = [(sym, arg) for (n, sym, arg) in calls if n == "match"]
+        if ms:
+            m = ms[0][0]
+            p = f.a.parameters
+            want = z3.If(p.isnone, z3.StringVal(""), p.val) if hasattr(p, "isnone") else sstr_to_z3(p)
+            got = ms[0][1]
+            got = got.val if hasattr(got, "isnone") else got
+            got = z3.StringVal(got) if isinstance(got, str) else sstr_to_z3(got)
+            arg_ok = (got == want) if got is not None else False
+        else:
+            m = z3.Bool("re.match!not-evaluated")      # the anchored match was never asked for: unrelated to the result
+            arg_ok = True
+        return And(arg_ok, _iff(truth, And(same, m)))
+    c.ensures("C14.entry-matches-iff-command-equal-and-pattern-matches-at-start", spec, props=("C14",))
+
+
+def _iff(a, b):
+    if ops.is_sym(a) or ops.is_sym(b):
+        return And(Implies(a, b), Implies(b, a))
+    return bool(a) == bool(b)
+
+
 # ------------------------------------------------------------------------------------------ C16: planArc (own verification)
 from pyvc.ops import Cos, Sin, Pi, trig_addition, trig_chord, trig_period, trig_pythagoras, sq   # noqa: E402
 
@@ -836,6 +887,26 @@ def _arc_centre_contract():
         return And(Not(eq(dx, 0)), Not(eq(dy, 0)), Not(eq((sq(dx) + sq(dy)) / 4, sq(f.a.radius))))
     c.ensures("C16.centre-equidistant-from-endpoints", geometry, props=("C16",),
               cases={"oblique-chord": oblique})
+
+    def side(f):
+        """The sign of R selects the arc: travelling from the start point in the commanded direction, the end point is
+        reached after at most half a turn iff R > 0 (RS274 / Marlin: e = -1 if clockwise xor R < 0).  With the centre
+        offset (i, j) and the chord (dx, dy): the counter-clockwise angle from start to end about the centre is below pi
+        iff cross = j*dx - i*dy > 0."""
+        pos = f.self.state.position
+        p1, q1 = A.n2l_current(pos.X_AXIS), A.n2l_current(pos.Y_AXIS)
+        dx, dy = f.a.endX - p1, f.a.endY - q1
+        R = f.a.radius
+        i, j = f.result
+        cross = j * dx - i * dy
+        proper = And(Not(eq(R, 0)), Or(Not(eq(dx, 0)), Not(eq(dy, 0))), (sq(dx) + sq(dy)) / 4 < sq(R))   # not a half circle
+        minor_in_direction = If(f.a.clockwise, cross < 0, cross > 0)
+        return Implies(proper, minor_in_direction == (R > 0))
+
+    def not_vertical(f):
+        pos = f.self.state.position
+        return Not(eq(f.a.endX - A.n2l_current(pos.X_AXIS), 0))
+    c.ensures("C16.radius-sign-selects-the-arc-side", side, props=("C16",), cases={"chord-not-vertical": not_vertical})
 
 
 _arc_centre_contract()
